@@ -76,6 +76,9 @@ def run(rep, tier):
     c01_state.matrix_update(rep, F)
     c01_state.bundle_labels(rep, F, tier)
     c01_state.star_labels(rep, F, tier)
+    # every exact predicate this property rests on is a sign of the orientation kernel (rules shared with C03)
+    from . import c03 as _c03
+    _c03.kernel_rules(rep, F, "R1.17")
 
 
 # ------------------------------------------------------------------------------------------------
